@@ -221,7 +221,7 @@ def check():
         else:
             o.inconc("UNCONFIRMED: lemma(s) fail (%s) but the real oal-lsp answers as annotated on all programs" % "; ".join(bad[:3]))
     elif probs:
-        o.inconc("translator validation failed: real oal-lsp deviates (%s) although every lemma holds" % probs[:3])
+        o.oracle_only("real oal-lsp deviates (%s) although every lemma holds" % probs[:3], rdir)
     return o.finish()
 
 
